@@ -9,7 +9,7 @@ NOTE = ("Trusted: Coq 8.16.1 kernel; no axioms (Print Assumptions: closed under 
         "OCaml driver; Go harness; python orchestrator. The model (coq/Model) is hand-written from the Go sources; the tie to /repo is the "
         "correspondence run of this check, which is differential testing bounded by its generators. ")
 CLAIMS = {
- "C01": ("12 theorems for all trees: key-by-key characterisation of map merge (C01_map_keywise), reject-iff (C01_map_reject_iff), $replace, scalars, null, list concat/replace/delete, extra keys, type clashes, frame over any number of layers; tied by 2-4 layer chains with directives at any position through MergeDocument, Documents() after every layer, OutputDocuments at the end.", "deepClone's YAML round trip is taken as the identity (whole-valued doubles excluded)."),
+ "C01": ("14 theorems for all trees: key-by-key characterisation of map merge (C01_map_keywise), reject-iff (C01_map_reject_iff), $replace, scalars, null, list concat/replace/delete, list $match (every matching entry patched in place, rejected when nothing matches), extra keys, type clashes, frame over any number of layers; tied by 2-4 layer chains with directives at any position through MergeDocument, Documents() after every layer, OutputDocuments at the end.", "deepClone's YAML round trip is taken as the identity (whole-valued doubles excluded)."),
  "C02": ("Theorems: the target-selection rule as one equation (C02_targets), independence of every target and untouched others for any target set (C02_independent), order preservation; tied by call histories (base streams, parent links, document-level $match/$invert/null), Documents() compared after every call.", "that Go values behave as values (no aliasing) is what the history correspondence tests."),
  "C06": ("Theorems: identity on plain documents (C06_identity), escape theorem for arbitrary data eval[esc v] = [dn v] (C06_escape), escaped strings are never directives, unescape(escape s) = s; tied by plain, escaped and layered documents compared with the generating tree and the model.", "hypotheses: well-formed tree (sorted maps), nesting depth <= the depth guard of the evaluator."),
  "C07": ("Theorem C07_outputs_valid for every input and every directive: each output document is the unescaping of a tree validation accepted; marker refusal, $required sticks through unmentioning layers; tied by chains with $required and directive-shaped strings injected anywhere, ok/err with error class and outputs compared, outputs scanned.", "unicode.IsLower above ASCII is an oracle table (python unicodedata)."),
